@@ -8,8 +8,6 @@ Two model routes are compared with the implementation wherever both exist:
 """
 from __future__ import annotations
 
-import math
-
 from common import f2h, h2f
 
 VAL_REL, TAN_REL = 1e-10, 1e-7
@@ -170,7 +168,7 @@ def _weibull(ck, drv, rng, inv, mu):
                 _close(a, b, TAN_REL, 1e-10) for a, b in zip(tang, rep[n:]))
         ck.case(key=(op, K, shape, tuple(pinv), tuple(muv)), bucket="driver/" + op,
                 sample={"model": op, "K": K, "shape": shape, "impl_rates": vals, "impl_drates_dshape": tang[:n],
-                        "model": rep[: 2 * n]})
+                        "model_output": rep[: 2 * n]})
         if not ok:
             ck.mismatch(f"{op}: model rates/tangents differ from implementation",
                         {"K": K, "shape": shape, "pinv": pinv, "mu": muv, "impl": vals + tang, "model": rep})
@@ -208,7 +206,8 @@ def _ratio(ck, drv, rng):
         ok = len(rep) == len(impl) and all(_close(a, b, TAN_REL, 1e-10) for a, b in zip(impl, rep)) and all(
             _close(a, b, VAL_REL, 1e-12) for a, b in zip([impl[0]] + impl[m + 1: 2 * m + 1], [rep[0]] + rep[m + 1: 2 * m + 1]))
         ck.case(key=(op, t["newick"], tuple(vals["ratios"])), bucket="driver/" + op,
-                sample={"model": op, "newick": t["newick"], "impl_logJ_and_grad": impl[: m + 1], "model": rep[: m + 1]})
+                sample={"model": op, "newick": t["newick"], "impl_logJ_and_grad": impl[: m + 1],
+                        "model_output": rep[: m + 1]})
         if not ok:
             ck.mismatch(f"{op}: model heights/Jacobian/log-Jacobian gradient differ from implementation",
                         {"tree": t, "x": vals, "impl": impl, "model": rep})
@@ -228,7 +227,7 @@ def _jc69(ck, drv, rng):
     for op in ("jc69", "jc69_def"):
         rep = _ask(drv, f"{op} | {f2h(t)}")
         ok = rep is not None and len(rep) == 4 and all(_close(a, b, VAL_REL, 1e-13) for a, b in zip(impl, rep))
-        ck.case(key=(op, t), bucket="driver/" + op, sample={"model": op, "t": t, "impl": impl, "model": rep})
+        ck.case(key=(op, t), bucket="driver/" + op, sample={"model": op, "t": t, "impl": impl, "model_output": rep})
         if not ok:
             ck.mismatch(f"{op}: model P(t), dP/dt differ from implementation", {"t": t, "impl": impl, "model": rep})
 
